@@ -214,6 +214,10 @@ func (ex *Exec) vsymCall(st *State, fr *Frame, dst ssa.Value, fn *ssa.Function, 
 	case "vsymUFFloat2":
 		nm := concStr(args[0], name)
 		ex.ret(fr, dst, mkUF("uff."+nm, SFP, args[1].(*Term), args[2].(*Term)))
+	case "vsymStructEq":
+		// deep equality of two values given as pointers (or values) in interfaces
+		a, b := args[0].(IfaceV), args[1].(IfaceV)
+		ex.ret(fr, dst, ex.deepEq(st, a.v, b.v, 0))
 	case "vsymTrack":
 		p := args[0].(Ptr)
 		st.track = p.obj
@@ -325,4 +329,66 @@ func (ex *Exec) recordAccess(st *State, fr *Frame, p Ptr, write bool) {
 		return
 	}
 	ex.trackAccess(st, fr, p, write)
+}
+
+// deepEq: structural equality (pointers are followed, slices compared by content).
+func (ex *Exec) deepEq(st *State, a, b Value, depth int) *Term {
+	if depth > 6 {
+		unsup("vsymStructEq: too deep")
+	}
+	switch x := a.(type) {
+	case Ptr:
+		y, ok := b.(Ptr)
+		if !ok {
+			return tFalse
+		}
+		if x.IsNil() || y.IsNil() {
+			return mkBool(x.IsNil() && y.IsNil())
+		}
+		if x == y {
+			return tTrue
+		}
+		return ex.deepEq(st, st.load(x), st.load(y), depth+1)
+	case *StructV:
+		y, ok := b.(*StructV)
+		if !ok || len(x.f) != len(y.f) {
+			return tFalse
+		}
+		cs := make([]*Term, len(x.f))
+		for i := range x.f {
+			cs[i] = ex.deepEq(st, x.f[i], y.f[i], depth+1)
+		}
+		return mkAnd(cs...)
+	case *ArrayV:
+		y, ok := b.(*ArrayV)
+		if !ok || len(x.e) != len(y.e) {
+			return tFalse
+		}
+		cs := make([]*Term, len(x.e))
+		for i := range x.e {
+			cs[i] = ex.deepEq(st, x.e[i], y.e[i], depth+1)
+		}
+		return mkAnd(cs...)
+	case SliceV:
+		y, ok := b.(SliceV)
+		if !ok || x.len != y.len || x.IsNil() != y.IsNil() {
+			return tFalse
+		}
+		va, vb := st.sliceVals(x), st.sliceVals(y)
+		cs := make([]*Term, len(va))
+		for i := range va {
+			cs[i] = ex.deepEq(st, va[i], vb[i], depth+1)
+		}
+		return mkAnd(cs...)
+	case IfaceV:
+		y, ok := b.(IfaceV)
+		if !ok {
+			return tFalse
+		}
+		if x.t == nil || y.t == nil {
+			return mkBool(x.t == nil && y.t == nil)
+		}
+		return ex.deepEq(st, x.v, y.v, depth+1)
+	}
+	return valEq(a, b)
 }
